@@ -4,6 +4,23 @@ SHAPE_NOTE = ("Container shapes in the typing context are fixed and small while 
               "(floats as reals); pyvc itself is trusted (cross-checked against CPython on solver-generated inputs each run).")
 
 META = {
+    "C08": {
+        "text": "Atom.get_common_string_rep / get_pqr_string proved field by field against the fixed PQR columns, and "
+                "print_pqr(--whitespace) followed by pdb2pqr's own Atom.from_pqr_line proved to read every field back, for "
+                "all serials, names, numbers and coordinates outside nine explicit carve-outs (the cases where a column "
+                "overflows or two tokens are glued), each of which is a recorded finding replayed on every run.",
+        "note": "Layout logic (segment lists over linear integer arithmetic, A-STR: a formatted number is one token whose "
+                "length is its digit count and whose value is within half a unit of the last place); names are opaque "
+                "white-space free words; 16 (record type x chain flag x chain id) variants. " + SHAPE_NOTE,
+    },
+    "C09": {
+        "text": "non_trivial proved (call trace) to read none of the output-formatting options, to apply the naming scheme "
+                "only after parameters are final and to serialise exactly the written list with the chain flag; the "
+                "serialiser contracts of C08 show that the x..radius columns do not depend on names or chain id and that "
+                "--whitespace only re-spaces.",
+        "note": "--drop-water equivalence and the -1/+1 shift of neutral termini are covered by the C02 X table and the C07 "
+                "contracts as they are added; N-terminal PRO is never neutralised (documented). " + SHAPE_NOTE,
+    },
     "C01": {
         "text": "Proved: Forcefield.get_params/get_names return exactly the table entry for (residue key, atom key) and "
                 "(None, None) otherwise; apply_force_field uses the state-qualified key for amino acids/water/nucleotides "
